@@ -4,6 +4,7 @@ C09 — Session rules: placement/execution switches, order caps, HFT interleavin
 Statements are about the scheduler model `Pams.Runner` (PamsModel/Runner.lean), for all session
 lists, tapes (permutations, uniform draws), agent programs (`answer`) and market answers.
 -/
+import PamsLemmas.SourceTie
 import PamsLemmas.RunnerLemmas
 
 namespace Pams.C09
@@ -139,5 +140,11 @@ theorem nonvacuous :
        .cbSubmitted 7 1, .hookOrderAfter 1 5, .execution 0, .ledger [0], .cbExecuted 7 0,
        .cbExecuted 3 0, .hookExecAfter 0 5, .stepEnd 0 5, .hookStepAfter 0 5, .tick 0] := by
   decide
+
+/-- (T) the caps and the rate test of the scheduler in the current sources: `>=` on both caps (tested
+before each consultation), non-empty `> 0`, owner `!=`, and `rate < draw` to skip the HFT round -/
+theorem source_gates :
+    Pams.Source.opsOf "SequentialRunner._collect_orders_from_normal_agents" = [">=", ">", ">", "!="] ∧
+    Pams.Source.opsOf "SequentialRunner._handle_orders" = ["<", ">=", ">", ">", "!="] := by decide
 
 end Pams.C09
